@@ -29,9 +29,11 @@ CHECKS = {
              "12 boundary constants}, pairs/chains for context rules, under each criterion with rules on and off; the "
              "produced specification is evaluated on every state of the boundary domain and compared with the EVM run "
              "of the block; constants in specifications must be 256-bit words; an instruction flagged commutative is "
-             "evaluated with both operand orders; evidence lists which rules fired",
-        note="trusted base: mc/spec_eval.py + mc/evm_ref.py; the size-gating clause (min bytes) is covered by C08's "
-             "byte accounting rather than by a separate search",
+             "evaluated with both operand orders; size gating: under -size the fewest bytes of any sequence realizing the "
+             "specification (explicit-state uniform-cost search over the reference stack machine, independent byte "
+             "weights) with rules on must not exceed the figure with rules off, for every block of <= 7 instructions; "
+             "evidence lists which rules fired",
+        note="trusted base: mc/spec_eval.py + mc/evm_ref.py + mc/sm_search.py",
         technique="bounded-exhaustive instantiation of rewrite-rule left-hand sides x boundary operand values against "
                   "a reference interpreter"),
     "C04": dict(
@@ -149,7 +151,9 @@ CHECKS = {
              "consecutive transitions; invariant on every transition: result == result in a fresh process; plus "
              "cross-history agreement over a victim pool, saturation histories (one block per opcode, round robin, "
              "13/41 rounds in one process) and "
-             "position independence of a block inside a contract",
+             "position independence of a block inside a contract (every rotation of three blocks, STOP-closed and "
+             "falling through into the next tag, and each block alone in a contract of its own: emitted code, "
+             "statistics rows and log entries must agree)",
         note="result = specifications, sub-block list, emitted items, log entry, statistics without timings; "
              "global_params.paths (private scratch location) is excluded from the state; sound deduplication because "
              "the code is a deterministic function of its globals, arguments and (wiped) scratch files",
@@ -161,7 +165,8 @@ CHECKS = {
              "a controlled subclass in the harness process); for each input the default run records the iteration "
              "points, then every point is deviated (all permutations for small sets, reversal/rotation/adjacent "
              "transpositions above; pairs of points in the thorough tier) and the complete result must be unchanged; "
-             "the default schedule is replayed and must reproduce itself; the same inputs are also processed in fresh "
+             "the default schedule is replayed and must reproduce itself (a different result of the second run in the "
+             "same process is a violation, different iteration points with the same result break the check); the same inputs are also processed in fresh "
              "interpreters under different PYTHONHASHSEED / scratch / cwd and must give identical digests",
         note="set literals/comprehensions are only covered by the hash-seed runs (finitely many seeds, stated); machine "
              "load is an assumption",
@@ -202,7 +207,9 @@ CHECKS = {
              "comes from an explicit-state uniform-cost search over the reference stack machine with independent "
              "weights; checked: realizable => satisfiable, a minimum-penalty model has minimum true cost, penalty minus "
              "cost is constant over models, the optimum does not depend on the pruning set; instances include every "
-             "kind of store/load next to POP/SWAP and values that can be copied or recomputed",
+             "kind of store/load next to POP/SWAP, values that can be copied or recomputed, and pairs of ordered "
+             "memory operations whose later member is the cheap one to run first (length <= 7: a cheaper model that is "
+             "no realization is reported as optimum-is-not-a-realization)",
         note="weights: bytes by libevmasm's rule, Berlin static gas (the tool's figure for access-priced opcodes), "
              "instruction count; known finding: -size prices instructions at min(bytes,5)",
         technique="exhaustive enumeration of the model set of the emitted encoding against an explicit-state "
